@@ -22,6 +22,7 @@ type Outcome struct {
 	Passed    []string           `json:"passed"`   // labels of passed asserts
 	Reached   []string           `json:"reached"`  // Reach labels
 	AssumeBad bool               `json:"assume_bad"`
+	Skipped   bool               `json:"skipped,omitempty"`
 	Panic     string             `json:"panic,omitempty"`
 	Observed  map[string][]int64 `json:"observed,omitempty"`
 	Facts     map[string]string  `json:"facts,omitempty"`
@@ -34,6 +35,11 @@ var (
 )
 
 type assumeFailed struct{}
+type engineOnly struct{}
+
+// EngineOnly marks a harness (or a path) that has no native counterpart (it asks the
+// engine about the program's SSA); the native cross-check skips it.
+func EngineOnly() { panic(engineOnly{}) }
 
 // RunNative runs f on the given inputs and returns what happened.
 func RunNative(in *Input, f func()) (o *Outcome) {
@@ -44,6 +50,10 @@ func RunNative(in *Input, f func()) (o *Outcome) {
 		if r := recover(); r != nil {
 			if _, ok := r.(assumeFailed); ok {
 				o.AssumeBad = true
+				return
+			}
+			if _, ok := r.(engineOnly); ok {
+				o.Skipped = true
 				return
 			}
 			o.Panic = fmt.Sprint(r)
